@@ -154,6 +154,63 @@ func helpers(ms []member, ps []part, topics int) {
 	}
 }
 
+var protoOf = map[string]string{"grange": "range", "grr": "roundrobin", "grack": "rack-affinity"}
+
+// canon32 renders what the members received (member => topic => partitions), sorted, empty lists dropped.
+func canon32(a map[string]map[string][]int32) string {
+	g := kafka.GroupMemberAssignments{}
+	for id, m := range a {
+		g[id] = map[string][]int{}
+		for t, ps := range m {
+			l := make([]int, len(ps))
+			for i, p := range ps {
+				l[i] = int(p)
+			}
+			g[id][t] = l
+		}
+	}
+	return canon(g)
+}
+
+// glue runs one whole rebalance round on the real leader glue (verif_export_c14b.go) and emits what every member
+// RECEIVES: ops grange / grr / grack with the same request format as range / rr / rack.  Repeated to sample the
+// iteration orders of the Go maps involved (GroupMemberAssignments, the per-member topic maps, RackAffinity's maps);
+// every distinct outcome is a case.  members[0] is the leader.
+func glue(op string, ms []member, ps []part, repeat int) {
+	if len(ms) == 0 {
+		return
+	}
+	req := op + " " + fmtMembers(ms) + " " + fmtParts(ps)
+	_, gp := toGo(ms, ps)
+	vm := make([]kafka.VerifC14Member, len(ms))
+	for i, m := range ms {
+		ts := make([]string, len(m.topics))
+		for j, t := range m.topics {
+			ts[j] = topicName(t)
+		}
+		vm[i] = kafka.VerifC14Member{ID: m.id, Topics: ts, Rack: zoneName(m.zone)}
+	}
+	seen := map[string]bool{}
+	for i := 0; i < repeat; i++ {
+		o := func() (res string) {
+			defer func() {
+				if r := recover(); r != nil {
+					res = "panic"
+				}
+			}()
+			got, _, err := kafka.VerifC14LeaderRound(protoOf[op], vm, gp)
+			if err != nil {
+				return "panic"
+			}
+			return canon32(got)
+		}()
+		if !seen[o] {
+			seen[o] = true
+			fmt.Fprintf(out, "%s\t%s\n", req, o)
+		}
+	}
+}
+
 // run emits the case for the named balancer; RackAffinity is called `repeat` times to sample Go's map
 // iteration orders and every distinct output becomes its own case line.
 func run(op string, ms []member, ps []part, repeat int) {
@@ -229,9 +286,9 @@ func main() {
 	defer out.Flush()
 	r := gen.New()
 	thorough := gen.Thorough()
-	rackRepeat := 4
+	rackRepeat, glueRepeat := 4, 3
 	if thorough {
-		rackRepeat = 12
+		rackRepeat, glueRepeat = 12, 8
 	}
 
 	// ---- 1. exhaustive small groups: members ≤ 4, topics ≤ 2, partitions ≤ 6 in total, every subscription
@@ -285,6 +342,10 @@ func main() {
 						ms[i] = base[j]
 					}
 					run("rack", ms, ps, rackRepeat)
+					if n >= 2 || caseNo%3 == 0 {
+						op := []string{"grange", "grr", "grack"}[caseNo%3]
+						glue(op, ms, ps, glueRepeat)
+					}
 				}
 			}
 		}
@@ -345,6 +406,9 @@ func main() {
 		run("rr", ms, ps, 1)
 		run("rack", ms, ps, rackRepeat)
 		helpers(ms, ps, nt)
+		glue("grange", ms, ps, glueRepeat)
+		glue("grr", ms, ps, glueRepeat)
+		glue("grack", ms, ps, glueRepeat)
 	}
 
 	// ---- 3. outside the hypotheses (duplicate topics in a member's list, equal member ids): the property
